@@ -148,14 +148,20 @@ P["C08"]=dict(level="model_checking",
  quick=dict(harnesses=[], l2=["verifL_Lin2_ShardedMap:l2","verifL_Lin2_SyncMap:l2","verifL_Lin2_ShardedMapOf:l2","verifL_LinWalk_ShardedMap:l2","verifL_LinWalk_SyncMap:l2","verifL_LinWalk_ShardedMapOf:l2"], l2_jobs=3, l2_par=16, l2_timeout=120),
  thorough=dict(harnesses=[], l2=["verifL_Lin2_ShardedMap:l2","verifL_Lin2_SyncMap:l2","verifL_Lin2_ShardedMapOf:l2","verifL_LinWalk_ShardedMap:l2","verifL_LinWalk_SyncMap:l2","verifL_LinWalk_ShardedMapOf:l2","verifL_Lin3_ShardedMap:l2","verifL_Lin3_SyncMap:l2","verifL_Lin3_ShardedMapOf:l2"], l2_jobs=3, l2_par=16, l2_timeout=300))
 
+P["C14"]=dict(level="other",
+ explanation="The transfer half of the property is decided on the real HTTPTransfer.Export handler, HTTPTransfer.Import and importCache, together with the real Dump/Restore of ShardedMap and SyncMap: an exporter and an importer HTTPTransfer each register an arbitrary subset of three cache names; every exporter cache holds an arbitrary subset of two keys with symbolic non-zero values and symbolic expiry; the importer's Transport is a harness RoundTripper that runs the exporter's real handler in process (with the exporter's own types hash installed while it runs) and hands its status and body back as the response. Importer and exporter types hashes are arbitrary 64-bit values (equal, or assumed different). For every path the solver decides: Import returns nil; a cache whose name the exporter knows and whose hash matches ends up with exactly the exporter's entries of that name (keys, values, expiry, count); with a different hash or an unknown name the importer's cache stays empty; the exporter's caches are unchanged. The *_Faults harnesses let RoundTrip fail, or the body break, for one cache name: that cache then holds only exporter entries (possibly none) and the others are imported as usual.",
+ bounds="<=3 cache names per side, <=2 entries per cache (third cache <=1), ShardedMap/SyncMap on either side, one fault per Import (RoundTrip error or body that breaks before its first byte)",
+ outside="the types-hash half of the property (GobRegister/recursiveTypeHash: determinism across processes, independence of registration order and multiplicity, sensitivity to an added type) - reflect type descriptors cannot be encoded by the executor, see DESIGN.md section 7; the gob wire format and mid-record truncation (record-stream stub); real network transports, URL syntax (export URL assumed valid, without query); ShardedMapOf (HTTPTransfer takes WalkDumpRestorer of interface{} values); ExportJSONL",
+ assumptions=["net/url and net/http plumbing is modelled at the level of the data it carries (stubs_used lists each: url.Parse, URL.Query/Values.Encode as inverse pair over an opaque string, URL.String/http.NewRequest likewise, http.Error = WriteHeader+Write, headers not modelled, io.ReadAll/io.Copy as Read loops)","strconv.FormatUint is injective (decimal rendering for constants, an injective atom for symbolic values)","encoding/gob modelled as a record stream (as in C13)","no Logger configured (the logging branches are not taken)"],
+ quick=dict(harnesses=["verifH_C14_Sharded_Sharded","verifH_C14_Faults"], jobs=2, workers=8),
+ thorough=dict(harnesses=["verifH_C14_Sharded_Sharded","verifH_C14_Sharded_Sync","verifH_C14_Sync_Sharded","verifH_C14_Sync_Sync","verifH_C14_Faults","verifH_C14_Faults3"], jobs=3, workers=5))
+
 json.dump({"common_assumptions":common,"properties":P},open('/verif/checks.json','w'),indent=1)
 print("checks.json:",sorted(P))
 
 # ---- MANIFEST.json
 props=[json.loads(l) for l in open('/verif/properties.jsonl')]
-NA={
- "C14":"solver-based checking of the real code does not reach it here: the property rests on reflect-based type hashing (recursiveTypeHash over runtime type descriptors, 'same in every process'), encoding/gob's wire format and net/http + net/url plumbing, none of which the go/ssa executor can encode (reflection, assembly-backed string search) and whose stubs would replace exactly the code the property is about; see DESIGN.md section 7",
-}
+NA={}
 PENDING="concurrency layer (event automata + BMC with symbolic scheduler) not built yet in this session; see DESIGN.md section 8"
 checks=[]
 for pr in props:
